@@ -61,7 +61,10 @@ Types     == {"str", "int", "bool", "enum", "date", "datetime", "array"}
 Shapes    == {"plain", "kebab", "camel", "keyword", "url", "params", "headers", "body", "id"}
 \* json_model: a model with two fields and a list field of one sub-model; json_prim: string / integer / boolean (body.ptype);
 \* json_array: array of sub-models; json_map: free-form object
-BodyKinds == {"none", "json_model", "json_prim", "json_array", "json_map", "form", "multipart", "octet", "two"}
+\* other: any other media type (body.media: text/csv, application/xml, image/png, application/pdf, text/plain, a vendor +json type):
+\* the request media type is an open set; the reference is the same for all of them - the bytes the caller passed go out under the
+\* DECLARED content type
+BodyKinds == {"none", "json_model", "json_prim", "json_array", "json_map", "form", "multipart", "octet", "other", "two"}
 Methods   == {"GET", "POST", "PUT", "PATCH", "DELETE"}
 
 NameOf(shape) == CASE shape = "plain"   -> "limit"
@@ -79,6 +82,7 @@ CtypeOf(kind) == CASE kind \in {"json_model", "json_prim", "json_array", "json_m
                    [] kind = "multipart" -> "multipart/form-data"
                    [] kind = "octet"     -> "application/octet-stream"
                    [] OTHER              -> ""
+CtypeOfBody(b) == IF b.kind = "other" THEN b.media ELSE CtypeOf(b.kind)
 Multi(op) == op.body.kind = "two"
 
 \* parameters that count: an operation-level parameter overrides the path-level one with the same (name, in)
@@ -92,7 +96,12 @@ SegsOf(id, params) ==
   <<[k |-> "lit", v |-> id]>> \o
   [j \in 1..Len(SelectSeq(EffSeq(o), LAMBDA i : params[i].in = "path")) |->
       [k |-> "var", v |-> params[SelectSeq(EffSeq(o), LAMBDA i : params[i].in = "path")[j]].name]]
-MkOp(id, method, params, body) == [id |-> id, method |-> method, segs |-> SegsOf(id, params), params |-> params, body |-> body]
+\* `item`: the path item the operation lives in - operations with the same item share ONE path (and its path-level parameters) and
+\* differ in the method; an operation is identified by (method, path).  `pref` / `pafter`: how the document renders the path-level
+\* parameters (through components/parameters $refs; the `parameters` key after the method keys) - the meaning is the same.
+MkOpIn(id, item, method, params, body) ==
+  [id |-> id, item |-> item, method |-> method, segs |-> SegsOf(item, params), params |-> params, body |-> body, pref |-> FALSE, pafter |-> FALSE]
+MkOp(id, method, params, body) == MkOpIn(id, id, method, params, body)
 
 \* a signature entry: role "param" (target = index into op.params), "body" (ctype = the content type it carries),
 \* "selector" (content_type=...), "extra" (an argument nothing declares)
@@ -197,9 +206,10 @@ BodyFails(c, r) ==
          ELSE IF BodyArgs(c) # {} THEN {F("C04.none_sent", [BLoc(c.op) EXCEPT !.observed = CtObs(r)])}
          ELSE {F("C04.body_ctype", [BLoc(c.op) EXCEPT !.observed = CtObs(r)])}
     ELSE LET i == CHOOSE x \in B : TRUE IN
-         IF r.ctype # c.sig[i].ctype THEN {F("C04.body_ctype", [BLoc(c.op) EXCEPT !.observed = CtObs(r)])}
-         ELSE IF r.body # c.args[i].canon THEN {F("C04.body_json", BLoc(c.op))}
-         ELSE {}
+         \* content type and content are judged independently: a payload that is sent without its content type is one thing,
+         \* a payload that is not sent at all another
+         (IF r.ctype # c.sig[i].ctype THEN {F("C04.body_ctype", [BLoc(c.op) EXCEPT !.observed = CtObs(r)])} ELSE {})
+         \cup (IF r.body # c.args[i].canon THEN {F("C04.body_json", [BLoc(c.op) EXCEPT !.observed = IF r.body = "" THEN "empty" ELSE ""])} ELSE {})
 
 \* a declared parameter / body the signature gives the caller no way to pass
 CarrierNames == {"body", "files", "form_data", "bytes_content", "data"}
@@ -265,7 +275,7 @@ PyName(shape) == CASE shape = "plain"   -> "limit"
                    [] shape = "keyword" -> "class_"
                    [] shape = "id"      -> "id_"
                    [] OTHER             -> shape
-BodyPy(kind) == CASE kind = "multipart" -> "files" [] kind = "form" -> "form_data" [] kind = "octet" -> "bytes_content" [] OTHER -> "body"
+BodyPy(kind) == CASE kind = "multipart" -> "files" [] kind = "form" -> "form_data" [] kind \in {"octet", "other"} -> "bytes_content" [] OTHER -> "body"
 
 \* operations/parser.py: path-level parameters first, then the operation's own - nothing is overridden
 Merged(op) == SelectSeq([i \in DOMAIN op.params |-> i], LAMBDA i : op.params[i].level = "path")
@@ -279,7 +289,7 @@ Decollide(s) == [j \in DOMAIN s |->
 SigStandard(op) ==
   LET src == IF Fixed THEN EffSeq(op) ELSE Merged(op)
       ps == [j \in DOMAIN src |-> SigEntry(PyName(op.params[src[j]].shape), "param", src[j], "", ~op.params[src[j]].required)]
-      b == SigEntry(BodyPy(op.body.kind), "body", 0, CtypeOf(op.body.kind), ~op.body.required)
+      b == SigEntry(BodyPy(op.body.kind), "body", 0, CtypeOfBody(op.body), ~op.body.required)
       all == IF op.body.kind = "none" THEN ps
              ELSE IF ~Fixed /\ \E j \in DOMAIN ps : ps[j].py = b.py THEN ps     \* parameter_processor.py:120-129: the body argument is dropped
              ELSE Append(ps, b) IN
@@ -411,7 +421,7 @@ StepCookie(c, s) ==
 
 \* `json_body = serialize(body)` / `files_data = serialize(files)` / `form_data_body = serialize(form_data)` / `bytes_body = bytes_content`
 \* - by NAME, whatever that name is bound to in the namespace
-BodyLocal(kind) == CASE kind = "multipart" -> "files_data" [] kind = "form" -> "form_data_body" [] kind = "octet" -> "bytes_body" [] OTHER -> "json_body"
+BodyLocal(kind) == CASE kind = "multipart" -> "files_data" [] kind = "form" -> "form_data_body" [] kind \in {"octet", "other"} -> "bytes_body" [] OTHER -> "json_body"
 BodySrc(c) == IF Fixed THEN (IF BodyArgs(c) = {} THEN "?" ELSE c.sig[CHOOSE i \in BodyArgs(c) : TRUE].py) ELSE BodyPy(c.op.body.kind)
 StepBody(c, s) ==
   IF c.op.body.kind = "none" THEN [s EXCEPT !.pc = "send"]
